@@ -29,7 +29,8 @@ for p in props:
             'category': 'exploration',
             'text': getattr(mod, 'LEVEL', 'Generated-input search (Hypothesis, seeded from VERIF_SEED, 16 shards) against an '
                             'explicit oracle; failures are collected per sub-oracle, shrunk with ddmin and written as '
-                            'replay files. No absence claim beyond the explored sizes.'),
+                            'replay files; listed known findings are matched by trigger and footprint only. No absence '
+                            'claim beyond the explored sizes. Explored: ') + mod.RULE,
             'design_ref': 'DESIGN.md section 6, ' + pid,
         },
         'level_note': getattr(mod, 'NOTE', 'Trusted: the reference model (dxverif/model.py, self-tested on hand-computed cases), '
